@@ -10,11 +10,12 @@ sharper bound of bounded_notify_buffered (resident <= capacity + currently pinne
 maintenance pass; right after a pass with nothing pinned: resident <= capacity, i.e. every resident unpinned entry is
 tracked by the policy), and a write-behind family (write pinned / flush / re-write before the next maintenance pass /
 flush, keys >> capacity, quiesced at the end) runs on every check; `search` boosts that family first.
+Multi-thread family "remove vs re-insert" (oracle only): see ASSUMPTIONS (message order under concurrency).
 """
 import json, os, subprocess, vlib
 
 PID = "C16"
-LEAN_MODULES = ["QbiceVerif.Props.C16", "QbiceVerif.Lemmas.TinyLfuUnpinSeed"]
+LEAN_MODULES = ["QbiceVerif.Props.C16", "QbiceVerif.Lemmas.TinyLfuUnpinSeed", "QbiceVerif.Lemmas.TinyLfuMsgOrder"]
 DRIVER = "drv_lfu"
 HARNESS_BIN = "lfu"
 HARNESS_FEATURES = ""
@@ -25,6 +26,13 @@ HARNESS_FEATURES = ""
 # lemma for arbitrary listeners (value tokens / the lock table), not as the Poll headline.
 PARTIAL = []
 ASSUMPTIONS = [
+    "MESSAGE ORDER UNDER CONCURRENCY (one key): message_order_is_storage_order / tracked_iff_resident_after_drain are about an LTS "
+    "(Lemmas/TinyLfuMsgOrder) in which the storage access of entry(k) and the push of Insert(k) / Removed(k) are ONE step, i.e. the "
+    "bucket lock of scc::HashMap::entry_sync is MODELLED as mutual exclusion per key, not verified, and the maintenance pass consumes "
+    "the write buffer in FIFO order; any number of threads and interleavings; eviction by the policy is not in the LTS. Whether the "
+    "real code pushes under the lock is checked by the oracle-only multi-thread family 'remove vs re-insert' (1 remover + 3-7 "
+    "inserters per group on one current key, nothing pinned, judged at quiescence by bounded_quiescent: resident <= window + main "
+    "capacity exactly; signature mt-leak:resident-untracked-after-remove-reinsert); witness of the unlocked variant: removed_after_unlock_leaks",
     "single-threaded, piggy-backed maintenance (try_lock always succeeds; the calling thread's read-buffer shard holds 16 "
     "entries); concurrent maintenance and the DedicatedThread mode are exercised by the oracle-only multi-thread runs, not modelled",
     "lru.rs's intrusive list + HashMap are modelled as four duplicate-free lists (regions_within_capacity proves the model keeps "
